@@ -7,7 +7,8 @@
 
   The model follows the code as repaired by
     fixes/C02-setsize-boundary.diff       (`SetSize` uses `>= 0xFFFFFF` like `Write3Size`)
-    fixes/C01-descriptor-reserved.diff    (the two reserved bytes of the region section are kept).
+    fixes/C01-descriptor-reserved.diff    (the two reserved bytes of the region section are kept)
+    fixes/C05-assemble-empty-blockmap.diff (a volume with files and no block map is an error, not a panic).
   Quirks reproduced on purpose are marked (Q).
 -/
 import FianoModel.Uefi.Parse
@@ -197,6 +198,8 @@ def finishFv (i : FvInfo) (fbuf : Bytes) (st : St) : Except Err (FvInfo × Bytes
 /-- the FirmwareVolume case of `Assemble.Visit` once the files are assembled -/
 def relayoutFv (i : FvInfo) (buf : Bytes) (files : List File) (st : St) : Except Err (FvInfo × Bytes × St) :=
   if i.length < buf.length then .error .err else
+  -- fixes/C05-assemble-empty-blockmap.diff: a volume with files needs a block map (`f.Blocks[0]`)
+  if i.blocks.isEmpty then .error .err else
   -- (Q) `fBuf[:DataOffset]` faults when the buffer is shorter
   if i.dataOffset > buf.length then .error .panic else
   match placeFiles st.pol (files.map (fun f => (f.info.attrs, f.buf))) (buf.take i.dataOffset) i.dataOffset with
